@@ -26,7 +26,8 @@ ASSUMPTIONS = ["float64 CPU", "expected exception family: any Exception raised b
                "electron counts outside [2, 2*n_orbitals - 2] are not generated"]
 REQUIRED_MONITORS = ["negative_raised", "negative_fresh_checked", "negative_precomputed_checked", "positive_rows_finite",
                      "guard_sites_seen", "negative_raised_dict_reused", "negative_raised_dict_user_elements",
-                     "positive_dispersion_cases", "positive_axis_aligned_runs"]
+                     "positive_dispersion_cases", "positive_axis_aligned_runs", "saddle_negative_cis_root_cells",
+                     "positive_md_option_runs", "md_energy_shift_guard_steps"]
 # thorough tier: cases not started after this many seconds are skipped and reported (env override for smoke tests)
 BUDGET_S = {"thorough": float(__import__("os").environ.get("VERIF_C18_BUDGET", "1500"))}
 CASE_TIMEOUT = 600.0
@@ -186,6 +187,36 @@ def gen_cases(tier, seed):
         pos.append({"kind": "pos", "family": "axis", "method": method, "grad": grad, "mol": name,
                     "pair": list(bonds[int(g3.integers(0, len(bonds)))]) if tier == "quick" else None,
                     "conv": [[2], [1]][i % 2], "uhf": False, "eps": 1e-7, "seed": int(g3.integers(0, 2**31))})
+    # excited-state analytical gradient on SCF references that are saddles / non-aufbau stationary points (cold-start Pulay on
+    # MNDO PH3 - the stored example of C04's finding - and PM3 BeH2; AlH3 / distorted variants are tried too and count only when
+    # the reference really is one): the outcome must be finite, flagged or an exception - never NaN with a clean flag
+    g4 = gen.rng("C18", tier, "saddle")
+    PH3X = {"Z": [15, 1, 1, 1], "X": [[0.0807, 0.0324, 0.0499], [1.3413, -0.0732, -0.7826], [-0.6767, 0.9427, -0.7632],
+                                     [-0.5061, -1.065, -0.7599]]}
+    sad = [("MNDO", "PH3", PH3X, None, 0.0), ("PM3", "BeH2", None, 0, 0.0), ("PM3", "BeH2", None, 2, 0.05), ("MNDO", "PH3", None, 7, 0.05)]
+    if tier != "quick":
+        sad += [("PM3", "BeH2", None, 5, 0.05), ("PM3", "BeH2", None, 10, 0.05)]
+        sad += [(m, n, None, int(g4.integers(0, 10**6)), 0.05) for m, n in (("AM1", "AlH3"), ("PM3", "BeH2"), ("MNDO", "PH3"), ("AM1", "BH3"),
+                                                                      ("MNDO", "BeH2"), ("PM3", "MgH2")) for _ in range(6)]
+    for method, name, explicit, gs, sigma in sad:
+        for act in (1, 2):
+            pos.append({"kind": "pos", "family": "saddle", "method": method, "mol": name, "explicit": explicit, "gseed": gs, "sigma": sigma,
+                        "active": act, "n_states": 3, "excited_method": "cis" if (act == 1 or tier == "quick") else ["cis", "rpa"][int(g4.integers(0, 2))],
+                        "conv": [2], "uhf": False, "eps": 1e-8, "seed": int(g4.integers(0, 2**31))})
+    # MD runs with the rarely used run options (control_energy_shift, scale_vel) and the Langevin thermostat, from stretched /
+    # hot starts at Temp = 0 (kinetic energy goes through ~0 at every turning point): every step's state must be finite
+    g5 = gen.rng("C18", tier, "md-options")
+    systems = [("H2", 0.9 / 0.74), ("HF", 1.3), ("LiH", 1.25), ("N2", 1.25), ("H2O", 1.3), ("HCl", 1.3), ("H2", 1.5), ("CO", 1.2)]
+    opts = [{"control_energy_shift": True}, {"scale_vel": [2, 300.0]}, {"control_energy_shift": True}, {}, {"scale_vel": [1, 50.0]},
+            {"control_energy_shift": True}]
+    nmd = 10 if tier == "quick" else 120
+    for i in range(nmd):
+        method = ["AM1", "PM3", "MNDO", "AM1"][i % 4]
+        sysn = [systems[i % len(systems)]] if i % 3 else [systems[0], systems[(i // 3) % len(systems)]]
+        sysn = [(n, f) for n, f in sysn if gen.available(n, method)] or [systems[0]]
+        pos.append({"kind": "pos", "family": "md-options", "method": method, "systems": [[n, float(f)] for n, f in sysn],
+                    "engine": "basic" if i % 4 != 3 else "langevin", "options": opts[i % len(opts)], "dt": [1.0, 0.5, 0.75][i % 3],
+                    "steps": 14, "temp": 0.0 if i % 5 else 20.0, "conv": [2], "uhf": False, "eps": 1e-7, "seed": int(g5.integers(0, 2**31))})
     # interleave the two spaces so that a truncated (budgeted) run still exercises both
     out = []
     step = max(1, len(pos) // max(1, len(cases)))
@@ -633,11 +664,154 @@ def _run_axis(case):
             "margins": {"finite_or_flagged": worst}, "obs": {"family": "axis", "mol": case["mol"], "pairs": [list(b) for b in bonds]}}
 
 
+def _run_saddle(case):
+    """excited-state analytical gradient on a cold-start Pulay reference; counts the cells in which that reference is
+    really a saddle (lowest reported CIS root negative)."""
+    import torch
+
+    from vlib import run
+
+    method = case["method"]
+    if case.get("explicit"):
+        Z, X = list(case["explicit"]["Z"]), np.asarray(case["explicit"]["X"], float)
+    else:
+        Z, X, _, _ = gen.molecule(case["mol"])
+        g = np.random.default_rng(case["gseed"])
+        X = gen.distort(X, g, case["sigma"]) if case["sigma"] > 0 else X.copy()
+        X = X - X.mean(axis=0)
+        X = X @ gen.generic_rotation(X, g).T
+    sett = run.settings(method, eps=case["eps"], converger=tuple(case["conv"]), grad="analytical", active_state=case["active"],
+                        excited={"n_states": case["n_states"], "method": case["excited_method"], "tolerance": 1e-8})
+    mon, viol, cells = {}, [], ["pos/saddle/%s/%s/active=%d/%s" % (method, case["mol"], case["active"], case["excited_method"])]
+    raised = None
+    with run.quiet():
+        mol, es, _ = run.build([Z], [X.tolist()], sett)
+        try:
+            es(mol)
+        except Exception as exc:  # noqa: BLE001   (a loud rejection is an admissible outcome here)
+            raised = exc
+    ce = getattr(mol, "cis_energies", None)
+    lowest = None
+    if torch.is_tensor(ce) and ce.numel():
+        lowest = float(ce.reshape(-1)[:case["n_states"]].min())
+        if lowest < 0:
+            mon["saddle_negative_cis_root_cells"] = 1
+            cells.append("saddle/negative-lowest-root/%s/%s" % (method, case["mol"]))
+    worst = 0.0
+    if raised is not None:
+        deliberate, site = _guard_site(raised)
+        mon["positive_rejected_loudly"] = 1
+        cells.append("pos-raised/%s@%s" % (type(raised).__name__, site))
+        obs = {"raised": type(raised).__name__, "message": str(raised)[:120], "lowest_cis_root": lowest}
+    else:
+        out = run.harvest(mol, es)
+        worst = _judge_rows(out, [(Z, X, 0, 1)], [Z], method, case, mon, viol, extra={"lowest_cis_root": lowest})
+        obs = {"returned": True, "lowest_cis_root": lowest, "Etot": float(out["Etot"][0])}
+    return {"nontrivial": True, "violations": viol, "monitors": mon, "cells": cells, "margins": {"finite_or_flagged": worst}, "obs": obs}
+
+
+def _run_mdopt(case):
+    """short MD run with rarely used run options; the state (coordinates, velocities, force, energies) is inspected on entry
+    to every integrator step and after the run.  A non-finite state is a violation whether or not the run later dies of an
+    unrelated error."""
+    import os
+
+    import torch
+    from seqm.MolecularDynamics import Molecular_Dynamics_Basic, Molecular_Dynamics_Langevin
+
+    from vlib import env, run
+
+    method = case["method"]
+    g = np.random.default_rng(case["seed"])
+    rows = []
+    for name, f in case["systems"]:
+        Z, X, q, m = gen.molecule(name)
+        X = X - X.mean(axis=0)
+        X = (X * f) @ gen.generic_rotation(X, g).T
+        rows.append((Z, X, q, m))
+    S, C = gen.pad_batch([(Z, X) for Z, X, _, _ in rows])
+    sett = run.settings(method, eps=case["eps"], converger=tuple(case["conv"]))
+    opt = dict(case["options"])
+    if "scale_vel" in opt:
+        opt["scale_vel"] = tuple(opt["scale_vel"])
+    mon = {"positive_md_option_runs": 1}
+    cells = ["pos/md-options/%s/%s/%s/Temp=%g" % (method, case["engine"], "+".join(sorted(opt)) or "plain", case["temp"])]
+    log = {"first_bad": None, "steps": 0, "guard": 0}
+    real = torch.as_tensor(np.asarray(S)) > 0
+
+    def inspect(molecule, step):
+        bad = []
+        for name in ("coordinates", "velocities", "force", "acc", "Etot"):
+            v = getattr(molecule, name, None)
+            if torch.is_tensor(v):
+                vv = v.detach()
+                if vv.dim() == 3:
+                    vv = vv[real]
+                if not bool(torch.isfinite(vv).all()):
+                    bad.append(name)
+        if bad and log["first_bad"] is None:
+            log["first_bad"] = {"step": step, "non_finite": bad}
+        v = getattr(molecule, "velocities", None)
+        if torch.is_tensor(v) and step >= 1 and "control_energy_shift" in opt:
+            # velocities of a molecule that are exactly zero after a real step can only come from the energy-shift guard
+            for k in range(v.shape[0]):
+                if bool((v[k][real[k]] == 0).all()):
+                    log["guard"] += 1
+
+    orig = Molecular_Dynamics_Basic._do_integrator_step
+
+    def step(self, i, molecule, *a, **k):
+        inspect(molecule, int(i))
+        log["steps"] += 1
+        return orig(self, i, molecule, *a, **k)
+
+    raised = None
+    with run.quiet(), env.Scratch("c18md") as d:
+        ch = [float(r[2]) for r in rows] if len(rows) > 1 else float(rows[0][2])
+        mu = [float(r[3]) for r in rows] if len(rows) > 1 else float(rows[0][3])
+        mol, es, s2 = run.build(S, C, sett, ch, mu)
+        out = {"molid": [0], "prefix": os.path.join(d, "md"), "print every": 0, "checkpoint every": 0, "xyz": 0, "h5": {"data": 0}}
+        if case["engine"] == "langevin":
+            md = Molecular_Dynamics_Langevin(damp=20.0, seqm_parameters=s2, timestep=case["dt"], Temp=case["temp"], output=out)
+        else:
+            md = Molecular_Dynamics_Basic(s2, timestep=case["dt"], Temp=case["temp"], output=out)
+        Molecular_Dynamics_Basic._do_integrator_step = step
+        try:
+            md.run(mol, case["steps"], seed=5, **opt)
+        except Exception as exc:  # noqa: BLE001
+            raised = exc
+        finally:
+            Molecular_Dynamics_Basic._do_integrator_step = orig
+        inspect(mol, log["steps"])
+    mon["positive_md_steps_inspected"] = log["steps"]
+    if log["guard"]:
+        mon["md_energy_shift_guard_steps"] = log["guard"]
+    viol = []
+    worst = 0.0
+    obs = {"steps": log["steps"], "guard_steps": log["guard"], "systems": case["systems"], "options": case["options"]}
+    if raised is not None:
+        deliberate, site = _guard_site(raised)
+        obs.update({"raised": type(raised).__name__, "message": str(raised)[:120], "site": site})
+        mon["positive_rejected_loudly"] = 1
+        cells.append("pos-raised/%s@%s" % (type(raised).__name__, site))
+    if log["first_bad"] is not None:
+        worst = 2.0
+        viol.append({"clause": "non-finite-md-state-without-flag", "mech": None,
+                     "detail": {"first_non_finite": log["first_bad"], "run_later_raised": None if raised is None else
+                                "%s: %s" % (type(raised).__name__, str(raised)[:120]), "case": case}})
+    return {"nontrivial": raised is None or log["first_bad"] is not None, "violations": viol, "monitors": mon, "cells": cells,
+            "margins": {"md_state_finite_every_step": worst}, "obs": obs}
+
+
 def _run_pos(case):
     from vlib import run
 
     if case["family"] == "axis":
         return _run_axis(case)
+    if case["family"] == "saddle":
+        return _run_saddle(case)
+    if case["family"] == "md-options":
+        return _run_mdopt(case)
     rows = _pos_request(case)
     if rows is None:
         return {"ineligible": "electron count outside the generated domain for this solver"}
